@@ -423,6 +423,20 @@ def run(ctx, rep):
                           "a request not taken from the mpsc channel is pushed into the batch: %s" % expr_s(strip_ids(v))[:90],
                           where=g.where(n))
 
+    # ---------------- R04.9 who may acknowledge ------------------------------------------
+    rep.rule("R04.9", "Callback::send is invoked only by the flush worker (which alone knows whether the sync succeeded)")
+    wsites = {(g.inst(n).key, n[1]) for n in send_nodes}
+    for b, bi, t in ctx.all_calls(r"callback::Callback::send$"):
+        if re.search(r" as raft_log::wal::callback::Callback>::send$", b["key"]):
+            continue
+        where = "%s:%d" % (rel_(t["file"]), t["line"])
+        if (b["key"], bi) in wsites:
+            rep.ok("R04.9", "Callback::send in %s" % short_key(b["key"]), "worker", where=where, nontrivial=False)
+        else:
+            rep.violation("R04.9", "%s|callback-sent-outside-worker" % short_key(b["key"]), "Callback::send",
+                          "a flush callback is invoked outside the flush worker: the caller thread cannot know whether earlier data was "
+                          "successfully synced", where=where)
+
     # ---------------- R04.7 (caller side) -----------------------------------------------
     r04_7(ctx, rep)
 
